@@ -215,8 +215,8 @@ Definition drain (cf : cfg) (answer : N -> lresp) (st : state) : state :=
 
 (* ------------------------------------------------------------- verdicts -- *)
 (* what the harness sees of one step: the batches newly handed to the loader
-   (each sorted) and the loads that completed, with their results *)
-Inductive sobs := SO (calls : list (list key)) (done : list (N * wres)) | SAnom (n : N).
+   (calling task, keys sorted) and the loads that completed, with results *)
+Inductive sobs := SO (calls : list (N * list key)) (done : list (N * wres)) | SAnom (n : N).
 
 Definition wres_eqb (a b : wres) : bool :=
   match a, b with
@@ -228,14 +228,14 @@ Definition wres_eqb (a b : wres) : bool :=
 Definition sobs_eqb (a b : sobs) : bool :=
   match a, b with
   | SO c d, SO c' d' =>
-      list_eqb (list_eqb N.eqb) c c' &&
+      list_eqb (fun x y => N.eqb (fst x) (fst y) && list_eqb N.eqb (snd x) (snd y)) c c' &&
       list_eqb (fun x y => N.eqb (fst x) (fst y) && wres_eqb (snd x) (snd y)) d d'
   | SAnom x, SAnom y => N.eqb x y
   | _, _ => false
   end.
 
 Definition observe (old new : state) : sobs :=
-  SO (map (fun c => canon (snd c)) (skipn (length (st_calls old)) (st_calls new)))
+  SO (map (fun c => (fst c, canon (snd c))) (skipn (length (st_calls old)) (st_calls new)))
      (skipn (length (st_done old)) (st_done new)).
 
 Fixpoint mtrace (cf : cfg) (st : state) (steps : list step) : list sobs :=
@@ -244,62 +244,156 @@ Fixpoint mtrace (cf : cfg) (st : state) (steps : list step) : list sobs :=
   | s :: r => let st' := mstep cf st s in observe st st' :: mtrace cf st' r
   end.
 
-(* A checker of the property on an observed trace alone, written without the
-   machine: batches are duplicate-free (the harness reports a duplicate as an
-   anomaly) and within the bound; a load completes at most once, only if it
-   was requested and not cancelled, with keys it asked for; an error result is
-   the error the loader gave in that very step; at the end of a schedule in
-   which every task and timer ran, every load that was not cancelled is done. *)
+(* ------------------------------------------------- the specification side -- *)
+(* A checker of the property on an observed trace ALONE (steps = what the
+   callers, the timers and the loader did; observations = what reached the
+   loader and the callers).  It does not run the machine: it keeps the
+   reference cache of C29 (DLCache.v: one recency-ordered map with optional
+   capacity) fed from the trace (fed values, values the loader returned while
+   caching is enabled, every cache hit counts as a use), the batches the
+   loader was asked and has not answered yet, and per request the cache
+   content it could see.  A load that completes must
+     - have been requested, not completed before, not cancelled;
+     - complete either in its own request step, and then every key was served
+       from the cache, or in the step where the loader answers a batch that
+       was handed to the loader and contains every key of the request that the
+       cache did not serve;
+     - hold, for every requested key, exactly the cached value, else exactly
+       what the loader answered for that key in that batch, else nothing; no
+       other key; no key twice;
+     - or hold that batch's error.
+   Batches stay below max_batch_size + the largest request; a request wholly
+   served from the cache completes at once; at the end of a schedule in which
+   every timer and task ran, every load that was not cancelled is done. *)
 Fixpoint subset (a b : list key) : bool :=
   match a with [] => true | x :: a' => mem x b && subset a' b end.
 
-Record tstate := { t_reqs : list (N * list key); t_done : list N; t_canc : list N; t_maxreq : nat }.
+Record treq := { r_ks : list key; r_snap : list (key * val); r_need : list key }.
+
+Record tstate := {
+  t_cache : list (key * val);         (* reference cache *)
+  t_reqs : list (N * treq);
+  t_open : list (N * list key);       (* batches handed to the loader, not answered yet *)
+  t_done : list N;
+  t_canc : list N;
+  t_maxreq : nat }.
+
+Definition t_init : tstate :=
+  {| t_cache := []; t_reqs := []; t_open := []; t_done := []; t_canc := []; t_maxreq := O |}.
+
+(* the value a completed load must hold for key k *)
+Definition value_of (snap vals : list (key * val)) (k : key) : option val :=
+  match assoc k snap with Some v => Some v | None => assoc k vals end.
+
+Definition wok_ok (rq : treq) (vals l : list (key * val)) : bool :=
+  subset (map fst l) (r_ks rq) && Nat.eqb (length (canon (map fst l))) (length l) &&
+  forallb (fun k => option_eqb N.eqb (assoc k l) (value_of (r_snap rq) vals k)) (r_ks rq).
 
 Definition done_ok (ts : tstate) (s : step) (d : N * wres) : bool :=
   let (w, r) := d in
   negb (mem w (t_done ts)) && negb (mem w (t_canc ts)) &&
   match assoc w (t_reqs ts) with
   | None => false
-  | Some ks =>
-      match r with
-      | WOk l => subset (map fst l) ks && Nat.eqb (length (canon (map fst l))) (length l)
-      | WErr e => match s with SDone _ (LErr e') => N.eqb e e' | _ => false end
+  | Some rq =>
+      match s, r with
+      | SRequest w' _, WOk l =>
+          N.eqb w' w && match r_need rq with [] => true | _ => false end && wok_ok rq [] l
+      | SDone t (LOk vals), WOk l =>
+          match assoc t (t_open ts) with
+          | Some b => subset (r_need rq) b && wok_ok rq vals l
+          | None => false
+          end
+      | SDone t (LErr e'), WErr e =>
+          N.eqb e e' && match assoc t (t_open ts) with Some b => subset (r_need rq) b | None => false end
+      | _, _ => false
       end
   end.
 
 Fixpoint nodup_ids (l : list N) : bool :=
   match l with [] => true | x :: r => negb (mem x r) && nodup_ids r end.
 
-Fixpoint trace_ok (cf : cfg) (ts : tstate) (l : list (step * sobs)) (complete : bool) : bool :=
-  match l with
-  | [] =>
-      negb complete ||
-      forallb (fun x => mem (fst x) (t_done ts) || mem (fst x) (t_canc ts)) (t_reqs ts)
-  | (s, o) :: r =>
-      let ts1 := match s with
-                 | SRequest w ks =>
-                     if mem w (map fst (t_reqs ts)) then ts
-                     else {| t_reqs := t_reqs ts ++ [(w, ks)]; t_done := t_done ts; t_canc := t_canc ts;
-                             t_maxreq := Nat.max (length (canon ks)) (t_maxreq ts) |}
-                 | _ => ts
-                 end in
-      match o with
-      | SAnom _ => false
-      | SO calls done =>
-          forallb (fun b => (length b <? c_max cf + t_maxreq ts1)%nat) calls &&
-          forallb (done_ok ts1 s) done && nodup_ids (map fst done) &&
-          let ts2 := {| t_reqs := t_reqs ts1; t_done := map fst done ++ t_done ts1;
-                        t_canc := match s with
-                                  | SCancel w => if mem w (map fst (t_reqs ts1)) && negb (mem w (t_done ts1))
-                                                 then w :: t_canc ts1 else t_canc ts1
-                                  | _ => t_canc ts1
-                                  end;
-                        t_maxreq := t_maxreq ts1 |} in
-          trace_ok cf ts2 r complete
-      end
+Definition remove_open (t : N) (l : list (N * list key)) : list (N * list key) :=
+  filter (fun x => negb (N.eqb (fst x) t)) l.
+
+(* a request / a feed as the reference cache sees it *)
+Definition treg (cf : cfg) (ts : tstate) (s : step) : tstate :=
+  match s with
+  | SRequest w ks =>
+      if mem w (map fst (t_reqs ts)) then ts
+      else
+        let snap := if c_dis cf then [] else t_cache ts in
+        {| t_cache := fold_left (fun l k => s_touch k l) (filter (holds snap) ks) (t_cache ts);
+           t_reqs := (w, {| r_ks := ks; r_snap := snap;
+                            r_need := canon (filter (fun k => negb (holds snap k)) ks) |}) :: t_reqs ts;
+           t_open := t_open ts; t_done := t_done ts; t_canc := t_canc ts;
+           t_maxreq := Nat.max (length (canon ks)) (t_maxreq ts) |}
+  | SFeed kvs =>
+      {| t_cache := s_put_all (cap_of (c_kind cf)) kvs (t_cache ts); t_reqs := t_reqs ts;
+         t_open := t_open ts; t_done := t_done ts; t_canc := t_canc ts; t_maxreq := t_maxreq ts |}
+  | _ => ts
   end.
 
-Definition t_init : tstate := {| t_reqs := []; t_done := []; t_canc := []; t_maxreq := O |}.
+(* a request wholly served from the cache completes in its own step *)
+Definition fresh_ok (ts ts1 : tstate) (s : step) (done : list (N * wres)) : bool :=
+  match s with
+  | SRequest w _ =>
+      if mem w (map fst (t_reqs ts)) then true
+      else match assoc w (t_reqs ts1) with
+           | Some rq => match r_need rq with [] => mem w (map fst done) | _ => true end
+           | None => false
+           end
+  | _ => true
+  end.
+
+(* the loader's answer closes its batch and, when caching is enabled, enters
+   the cache; a dropped future cancels a load that is not done *)
+Definition tclose (cf : cfg) (ts : tstate) (s : step) : tstate :=
+  match s with
+  | SDone t r =>
+      match assoc t (t_open ts) with
+      | Some _ =>
+          {| t_cache := match r with
+                        | LOk vals => if c_dis cf then t_cache ts else s_put_all (cap_of (c_kind cf)) vals (t_cache ts)
+                        | LErr _ => t_cache ts
+                        end;
+             t_reqs := t_reqs ts; t_open := remove_open t (t_open ts); t_done := t_done ts;
+             t_canc := t_canc ts; t_maxreq := t_maxreq ts |}
+      | None => ts
+      end
+  | SCancel w =>
+      if mem w (map fst (t_reqs ts)) && negb (mem w (t_done ts)) then
+        {| t_cache := t_cache ts; t_reqs := t_reqs ts; t_open := t_open ts; t_done := t_done ts;
+           t_canc := w :: t_canc ts; t_maxreq := t_maxreq ts |}
+      else ts
+  | _ => ts
+  end.
+
+Definition tstep (cf : cfg) (ts : tstate) (s : step) (o : sobs) : option tstate :=
+  match o with
+  | SAnom _ => None
+  | SO calls done =>
+      let ts1 := treg cf ts s in
+      if forallb (fun c => (length (snd c) <? c_max cf + t_maxreq ts1)%nat) calls &&
+         forallb (done_ok ts1 s) done && nodup_ids (map fst done) && fresh_ok ts ts1 s done
+      then
+        let ts2 := tclose cf ts1 s in
+        Some {| t_cache := t_cache ts2; t_reqs := t_reqs ts2; t_open := calls ++ t_open ts2;
+                t_done := map fst done ++ t_done ts2; t_canc := t_canc ts2; t_maxreq := t_maxreq ts2 |}
+      else None
+  end.
+
+Definition tfinal (ts : tstate) (complete : bool) : bool :=
+  negb complete || forallb (fun x => mem (fst x) (t_done ts) || mem (fst x) (t_canc ts)) (t_reqs ts).
+
+Fixpoint trace_ok (cf : cfg) (ts : tstate) (l : list (step * sobs)) (complete : bool) : bool :=
+  match l with
+  | [] => tfinal ts complete
+  | (s, o) :: r =>
+      match tstep cf ts s o with
+      | Some ts' => trace_ok cf ts' r complete
+      | None => false
+      end
+  end.
 
 Definition wf_cfg (cf : cfg) : bool := wf_kind (c_kind cf) && (1 <=? c_max cf)%nat.
 
